@@ -272,3 +272,133 @@ def _fold_with_const(self: Folder, e: ast.expr) -> Any:
 
 
 Folder._fold = _fold_with_const  # type: ignore
+
+
+# ----------------------------------------------------------------------------------------------------------------------
+class AObj(Sym):
+    """
+    an abstract instance of a repository class: the fields given by the rule, everything else answered by abstractly
+    evaluating the class's own properties / methods (helper-expanded) over this object
+    """
+
+    def __init__(self, _cls_: ClassInfo, _ctx_: Any, **fields: Any):
+        super().__init__(**fields)
+        self.__dict__["_cls_"] = _cls_
+        self.__dict__["_ctx_"] = _ctx_
+
+    def __repr__(self) -> str:
+        return "<%s %s>" % (self._cls_.name, ", ".join("%s=%r" % kv for kv in sorted(self.__dict__.items()) if not kv[0].endswith("_") or not kv[0].startswith("_")))
+
+
+def aobj_member(f: Folder, obj: AObj, attr: str) -> Any:
+    """attribute `attr` of an abstract instance that is not one of its given fields"""
+    repo = obj._ctx_.repo
+    m = repo.lookup_method(obj._cls_, attr)
+    if m is not None and m.is_property:
+        ev = Evaluator({"self": obj}, repo, m.module, m.cls, f.hook)
+        ev.depth = f.depth + 1
+        return ev.run(body_without_docstring_(obj._ctx_.inl(m)))
+    if m is not None:
+        return _BoundMethod(obj, m)
+    v = repo.lookup_class_attr(obj._cls_, attr)
+    if v is not None:
+        return Folder({}, repo, obj._cls_.module, obj._cls_, f.hook).fold(v)
+    raise Unfoldable("%s has no member %s" % (obj._cls_.name, attr))
+
+
+class _BoundMethod(Abstract):
+    def __init__(self, obj: AObj, fn: Any):
+        self.obj = obj
+        self.fn = fn
+
+    def call(self, f: Folder, args: List[Any], kwargs: Dict[str, Any]) -> Any:
+        fn = self.fn
+        node = self.obj._ctx_.inl(fn)
+        a = node.args
+        params = [x.arg for x in a.posonlyargs + a.args]
+        env: Dict[str, Any] = {}
+        if not fn.is_static:
+            env[params[0]] = self.obj if not fn.is_classmethod else self.obj._cls_
+            params = params[1:]
+        if len(args) > len(params):
+            raise Unfoldable("too many arguments for %s" % fn.name)
+        for p, v in zip(params, args):
+            env[p] = v
+        for k, v in kwargs.items():
+            env[k] = v
+        defaults = dict(zip(reversed([x.arg for x in a.posonlyargs + a.args]), reversed(a.defaults)))
+        for p in params + [x.arg for x in a.kwonlyargs]:
+            if p not in env:
+                d = defaults.get(p)
+                if d is None:
+                    kd = dict(zip([x.arg for x in a.kwonlyargs], a.kw_defaults)).get(p)
+                    if kd is None:
+                        raise Unfoldable("missing argument %s of %s" % (p, fn.name))
+                    d = kd
+                env[p] = Folder({}, f.repo, fn.module, fn.cls).fold(d)
+        ev = Evaluator(env, f.repo, fn.module, fn.cls, f.hook)
+        ev.depth = f.depth + 1
+        is_gen = any(isinstance(n, (ast.Yield, ast.YieldFrom)) for n in ast.walk(node))
+        r = ev.run(body_without_docstring_(node))
+        return list(ev.yielded) if is_gen else r
+
+
+def body_without_docstring_(node: ast.AST) -> List[ast.stmt]:
+    from .core import body_without_docstring
+
+    return body_without_docstring(node)  # type: ignore
+
+
+def make_obj(ctx: Any, cls: ClassInfo, **public: Any) -> AObj:
+    """an abstract instance with the given values for public properties; where such a property is a plain accessor of a
+    private field (`return self._x`, possibly after assertions), the field gets the same value"""
+    from .regions import trivial_property_expr
+
+    o = AObj(cls, ctx, **public)
+    for name, v in public.items():
+        e = trivial_property_expr(ctx.repo, cls, name)
+        d = dotted(e) if e is not None else None
+        if d is not None and d.startswith("self.") and d.count(".") == 1:
+            o.__dict__[d.split(".")[1]] = v
+    return o
+
+
+def construct(ctx: Any, cls: ClassInfo, *args: Any, hook: Any = None, **kwargs: Any) -> AObj:
+    """the abstract instance the class's constructor (super() chain flattened, helpers expanded) builds for the arguments"""
+    from .regions import flatten_init
+
+    repo = ctx.repo
+    o = AObj(cls, ctx)
+    stmts, chain = flatten_init(repo, cls, inline_props=False, node_of=ctx.inl)
+    if not chain:
+        return o
+    init = chain[0]
+    a = ctx.inl(init).args
+    params = [x.arg for x in a.posonlyargs + a.args][1:]
+    env: Dict[str, Any] = {"self": o}
+    if len(args) > len(params):
+        raise Unfoldable("too many constructor arguments for %s" % cls.name)
+    env.update(zip(params, args))
+    env.update(kwargs)
+    defaults = dict(zip(reversed(params), reversed(a.defaults)))
+    for p_ in params + [x.arg for x in a.kwonlyargs]:
+        if p_ not in env:
+            d = defaults.get(p_, dict(zip([x.arg for x in a.kwonlyargs], a.kw_defaults)).get(p_))
+            if d is None:
+                raise Unfoldable("constructor argument %s of %s not given" % (p_, cls.name))
+            env[p_] = Folder({}, repo, init.module, cls).fold(d)
+    Evaluator(env, repo, init.module, cls, hook).run(stmts)
+    return o
+
+
+def set_public(o: AObj, **public: Any) -> AObj:
+    """give public properties abstract values; a property that is a plain accessor of a private field sets the field"""
+    from .regions import trivial_property_expr
+
+    for name, v in public.items():
+        o.__dict__[name] = v
+        e = trivial_property_expr(o._ctx_.repo, o._cls_, name)
+        d = dotted(e) if e is not None else None
+        if d is not None and d.startswith("self.") and d.count(".") == 1:
+            o.__dict__[d.split(".")[1]] = v
+    return o
